@@ -69,14 +69,14 @@ theorem C12_isenum (i : Input) (h : WF i = true) (v : Int) (hv : i.kind.has v = 
 
 /-- every encoder puts the String() text on the wire: the trimmed name for a declared constant -/
 theorem C12_encode (i : Input) (h : WF i = true) (x : Int) :
-    encode i.T (tables i) x = specString i.T i.decl x := C04_string i h x
+    encode i.kind i.T (tables i) x = specString i.T i.decl x := C04_string i h x
 
 /-- decode(encode(c)) = c for every declared constant, for the three codecs, whatever the target held -/
 theorem C12_codec_roundtrip (i : Input) (h : WF i = true) (c : Const) (hc : c ∈ i.decl) (target : Int) :
-    unmarshalJSON (vmOf i) (.str (encode i.T (tables i) c.val).text) target = (none, c.val) ∧
-    unmarshalText (vmOf i) (encode i.T (tables i) c.val).text target = (none, c.val) ∧
-    scan (vmOf i) (.bytes (encode i.T (tables i) c.val).text) target = (none, c.val) := by
-  have he : (encode i.T (tables i) c.val).text = trim i.T c.name := by
+    unmarshalJSON (vmOf i) (.str (encode i.kind i.T (tables i) c.val).text) target = (none, c.val) ∧
+    unmarshalText (vmOf i) (encode i.kind i.T (tables i) c.val).text target = (none, c.val) ∧
+    scan (vmOf i) (.bytes (encode i.kind i.T (tables i) c.val).text) target = (none, c.val) := by
+  have he : (encode i.kind i.T (tables i) c.val).text = trim i.T c.name := by
     unfold encode; rw [C04_string_declared i h c hc]; rfl
   have hp : parseEnum (vmOf i) (trim i.T c.name) = some c.val :=
     ((C12_parse_iff i h (trim i.T c.name) c.val).2).mpr ⟨c, hc, rfl, rfl⟩
